@@ -601,6 +601,11 @@ func (s *Scheme) prepareSigning(membership *membership, parties []PartyID, topic
 		return nil, err
 	}
 
+	// Now that the instance knows its parties, have it (re)load the share data before it becomes reachable
+	if err := signingProtocol.SetShareData(s.StoredData); err != nil {
+		return nil, err
+	}
+
 	broadcastParties := excludeUniversal(signers, s.SelfID)
 	rbc := s.RBF(func(digest string, sender uint16, msgRound uint8) {
 		payload := newRBCEncoding(digest, sender, msgRound)
@@ -632,7 +637,7 @@ func (s *Scheme) prepareSigning(membership *membership, parties []PartyID, topic
 		panic("Programming error: we shouldn't have gotten to a situation with two concurrent signing with the same topic")
 	}
 
-	return signingProtocol, signingProtocol.SetShareData(s.StoredData)
+	return signingProtocol, nil
 }
 
 func (s *Scheme) initializeDKG(dkg KeyGenerator, threshold int, parties []PartyID, members []UniversalID, membership *membership) error {
